@@ -145,6 +145,28 @@ Proof.
       * cbn [List.length]. now rewrite H3.
 Qed.
 
+(* every ordered selection without repetition is produced by some oracle: the model does not
+   restrict what DataFrame.sample may return *)
+Lemma draw_complete : forall l pool,
+  NoDup l -> incl l pool -> exists rs, draw (List.length l) pool rs = l.
+Proof.
+  induction l as [|x l IH]; intros pool Hnd Hin.
+  - exists []. reflexivity.
+  - inversion Hnd as [|? ? Hx Hl]; subst.
+    assert (Hxp : In x pool) by (apply Hin; now left).
+    destruct pool as [|d pool']; [destruct Hxp|].
+    remember (d :: pool') as pool eqn:E.
+    destruct (In_nth pool x d Hxp) as (r & Hr & Hn).
+    destruct (IH (removeZ x pool) Hl) as (rs & Hrs).
+    { intros y Hy. apply removeZ_In. split; [apply Hin; now right|]. intros ->. contradiction. }
+    exists (r :: rs).
+    assert (Hd : draw (S (List.length l)) pool (r :: rs)
+                 = nth (r mod List.length pool)%nat pool d
+                   :: draw (List.length l) (removeZ (nth (r mod List.length pool)%nat pool d) pool) rs)
+      by (subst pool; reflexivity).
+    cbn [List.length]. rewrite Hd, Nat.mod_small by exact Hr. rewrite Hn, Hrs. reflexivity.
+Qed.
+
 (* ================================================================== T19a: the protocol holds for every oracle *)
 Lemma wf_strata_cons s r :
   wf_strata (s :: r) ->
